@@ -109,11 +109,21 @@ class Check:
         self.seed = self.args.seed
         self.t0 = time.time()
         import glob
-        for f in glob.glob(os.path.join(OUT, "replays", "%s_*.json" % pid)):
-            try:
-                os.remove(f)
-            except OSError:
-                pass
+        self.replay_inst = None
+        if self.args.replay:
+            # --replay <file>: re-run only the instance recorded in a replay file, on the current /repo tree
+            with open(self.args.replay) as f:
+                rec = json.load(f)
+            self.replay_inst = rec.get("instance")
+            self.replay_was = rec.get("outcome", {})
+            if rec.get("outcome", {}).get("_env"):
+                os.environ.update(rec["outcome"]["_env"])
+        else:
+            for f in glob.glob(os.path.join(OUT, "replays", "%s_*.json" % pid)):
+                try:
+                    os.remove(f)
+                except OSError:
+                    pass
         self.outcomes = []
         self.funcs = set()
         self.stats = collections.Counter()
@@ -132,6 +142,8 @@ class Check:
     # ---- running ---------------------------------------------------------------------------------
     def map(self, module, fn_name, instances, chunksize=4, family=None):
         """run `module.fn_name(inst)` for each instance in worker processes; returns outcomes (dicts)"""
+        if self.replay_inst is not None:
+            instances = [i for i in instances if _jsonable(i) == self.replay_inst]
         if self.args.filter:
             instances = [i for i in instances if self.args.filter in str(i)]
         if self.args.limit:
@@ -174,6 +186,20 @@ class Check:
 
     def finish(self, rule, trusted_base=(), checker_cmd=None, explanation=None):
         by = collections.Counter(o["status"] for o in self.outcomes)
+        if self.replay_inst is not None:
+            # replay mode: no evidence, no coverage floors - only the recorded instance, re-decided on the current tree
+            if not self.outcomes:
+                print("REPLAY property=%s: the recorded instance is not generated by this tier/seed (run with the tier and seed of the original run)" % self.pid)
+                sys.exit(3)
+            code = 0
+            for o in self.outcomes:
+                known = self.match_known(o) if o["status"] == "violation" else None
+                print("REPLAY property=%s status=%s%s :: %s :: %s" % (self.pid, o["status"], " (known finding %s)" % known["id"] if known else "",
+                                                                 (o.get("prog") or o.get("label") or "")[:200], o.get("detail", "")[:300]))
+                if o["status"] == "violation" and known is None:
+                    print("VIOLATION property=%s replay=%s" % (self.pid, self.args.replay))
+                    code = 1
+            sys.exit(code)
         viol = []
         for o in self.outcomes:
             if o["status"] == "violation":
